@@ -10,7 +10,7 @@ from props import _generic
 MODULE = "NgoVerif.Props.C14"
 LEVEL = ("Lean: a variable with coefficient a is eliminable exactly when a divides the rest (always for +-1, counterexample X = Y*3), guard moves follow the rhs2lhs/negate table theorems, merging aggregates is sum-of-sums with distinct tags. Everything of math_simplification.py except sympy is an executable model (Model/MathSimp.lean, Model/MathSimpPoly.lean) tied by corr_mathsimp.py, which records every sympy call (groebner, solve, combine, sort) of the real run and hands the answers to the model as external parameters (nothing is proved about sympy); exactness of the pass is validated with clingo with integers of both signs and 0.")
 RULE = ('oracle cases = programs harvested from /repo/tests (math_simplification first) mutations of them and programs of a targeted type-directed generator (harness/tgen.py) under math only, 5 instances each (empty, small integer/symbolic domains, dense tiny domains, duplicates) over the input predicates; compared: answer sets on voc(P) one-to-one + costs; non-trivial = the pass changed the program and at least one instance was compared; distinct by program+flags')
-EXTRA = ['cheap :- C = #sum{P,I : buy(I,P)}, S = #sum{P,I : ship(I,P)}, budget(B), target(T), C <= B, C + S >= T. {buy(I,P)} :- item(I,P). {ship(I,P)} :- item(I,P).', 'sync :- X = #sum{1,S : lamp(S)}, not not X = #sum{1,S : on(S)}. {on(S)} :- lamp(S). on(S) :- sync, lamp(S).', 'q(X) :- d(X), X = Y+3, e(Y).', 'q(X,Z) :- d(X), e(Z), X*2 = Z+Z.', 'a(X) :- b(X,Y), X - Y > 2, Y + 1 < X.']
+EXTRA = [('cheap :- C = #sum{P,I : buy(I,P)}, S = #sum{P,I : ship(I,P)}, budget(B), target(T), C <= B, C + S >= T. {buy(I,P)} :- item(I,P). {ship(I,P)} :- item(I,P).', ['item(a,2). item(b,3). item(c,4). budget(5). target(8).', 'item(a,1). item(b,2). budget(1). target(3).', 'item(a,0). item(b,-3). budget(-1). target(0).']), 'sync :- X = #sum{1,S : lamp(S)}, not not X = #sum{1,S : on(S)}. {on(S)} :- lamp(S). on(S) :- sync, lamp(S).', 'q(X) :- d(X), X = Y+3, e(Y).', 'q(X,Z) :- d(X), e(Z), X*2 = Z+Z.', 'a(X) :- b(X,Y), X - Y > 2, Y + 1 < X.']
 
 
 def corr(rng, quick):
